@@ -1,7 +1,43 @@
-(* Props/C16.v — property theorems only (C16 Brace expansion matches bash). *)
+(* Props/C16.v — property theorems only (C16 Brace expansion matches bash).
+   Model: Expand/Braces.v (SplitBraces, printer rendering, bracesSeqRec/BracesSeq after the fix: commits
+   recorded in known_findings.jsonl; Spec = bash's brace_expand). A word is one literal, w : str. *)
 From Verif Require Import Base.Str Expand.Braces Proofs.BracesProofs.
 
-(* splitting braces leaves the word's printed form unchanged (plain rendering of the part tree) *)
+(* 1. splitting braces leaves the word's printed form unchanged *)
 Theorem C16_split_preserves_text : forall w, render (snd (split_braces w)) = render [PLit w].
 Proof. exact split_preserves_text'. Qed.
 Print Assumptions C16_split_preserves_text.
+
+(* 2. ... and reports whether it found a brace expansion.
+   (On the pinned tree this was refuted by w = "a{b": flag true, no BraceExp; repaired by fix 6c22f31,
+   so the model is the repaired code and the full statement is proved.) *)
+Theorem C16_split_reports : forall w,
+  fst (split_braces w) = true <-> exists sq es, In (PBrace sq es) (snd (split_braces w)).
+Proof. exact split_reports. Qed.
+Print Assumptions C16_split_reports.
+
+Theorem C16_split_false_untouched : forall w,
+  fst (split_braces w) = false -> snd (split_braces w) = [PLit w].
+Proof. exact split_false_untouched. Qed.
+Print Assumptions C16_split_false_untouched.
+
+(* 3. expansion of a split word never panics and never runs out of model fuel *)
+Theorem C16_no_panic : forall w,
+  expand (snd (split_braces w)) <> Panic /\ expand (snd (split_braces w)) <> Err E_FUEL.
+Proof. exact expand_no_panic. Qed.
+Print Assumptions C16_no_panic.
+
+(* 4. an error exactly when the list exceeds the limit, and it is the limit error *)
+Theorem C16_error_iff_above_limit : forall w c,
+  expand (snd (split_braces w)) = Err c <->
+  c = E_LIMIT /\ exists l, braces_rec (S (word_size (snd (split_braces w)))) (snd (split_braces w)) = Ok l
+                           /\ (limit < length l)%nat.
+Proof. exact expand_error_iff_above_limit. Qed.
+Print Assumptions C16_error_iff_above_limit.
+
+Theorem C16_expand_total : forall w,
+  (exists l, expand (snd (split_braces w)) = Ok l /\ (length l <= limit)%nat) \/
+  (expand (snd (split_braces w)) = Err E_LIMIT /\
+   exists l, braces_rec (S (word_size (snd (split_braces w)))) (snd (split_braces w)) = Ok l /\ (limit < length l)%nat).
+Proof. exact expand_split_total. Qed.
+Print Assumptions C16_expand_total.
